@@ -80,3 +80,4 @@ package verifspec
 //@   param value: iface, type: desc, returnTuple: bool
 //@   abstract_rest
 //@   throws_when !returnTuple && type.kind != 20 && (value.$nil || value.constructor != type)
+//@   throws_when !returnTuple && value.$nil          // a nil interface value has no dynamic type: also for interface targets
